@@ -21,7 +21,7 @@ and wiring G2 verifies.
 import re
 from .. import cdb, ir, report
 from ..ir import norm, show, root_var, subterms
-from ..dataflow import cond_atoms
+from ..dataflow import cond_atoms, Solver
 
 # accelerated unit -> (dispatcher unit, selector enum constant, run-time feature tests required)
 ACCEL = {
@@ -251,6 +251,27 @@ def g1_g2(prog, rep, enums_by_unit, min_uses=10):
                     rep.bad("G2-select", "hwaccel = HW_UNSET in %s" % up, e.where,
                             "the selection is reset to undecided: a later call may select another implementation while objects built for the earlier one are still in use",
                             function="hwaccel_init", construct="selector-reset")
+        # ... and hwaccel_init always decides: at each of its returns the selector is no longer "undecided" (a failed self-test that
+        # leaves it undecided is run again by a later call, which may come to the other conclusion)
+        if hw is not None and sel.get("HW_UNSET") is not None:
+            unset = ("c", sel["HW_UNSET"])
+
+            def _tr(st, e):
+                if e.is_assign and e.op == "=" and norm(e.kid(0))[0] == "v" and norm(e.kid(0))[1] == "hwaccel":
+                    return "decided" if norm(e.kid(1))[0] == "c" and norm(e.kid(1)) != unset else "maybe"
+                return st
+
+            def _rf(st, cond, kind):
+                if kind in (True, False):
+                    for op, L, R, _, _ in cond_atoms(cond, kind):
+                        if L[0] == "v" and L[1] == "hwaccel" and R == unset and op == "!=":
+                            return "decided"
+                return st
+            sv = Solver(hw, "maybe", _tr, _rf, lambda a, b: a if a == b else "maybe").run()
+            st = sv.IN.get(hw.exit)
+            rep.check(st in (None, "decided"), "G2-select", "hwaccel_init in %s returns with the selection made" % up, hw.loc,
+                      "a path reaches the end of hwaccel_init with hwaccel still HW_UNSET: the self-tests are run again by the next call, "
+                      "which may select another implementation while objects built for this one are in use", function="hwaccel_init", construct="undecided-return")
         # dispatchers initialise before testing
         for f in u.funcs:
             if f.file != up or f.name == "hwaccel_init" or f.static:
